@@ -1,4 +1,5 @@
 import CacheVerif.Proofs.DeepAppend
+import CacheVerif.Proofs.TableRefine
 /-!
 # Copying entries bucket-wise with `appendToBucketOf` is M3's `copyAll`
 
@@ -102,5 +103,69 @@ theorem moveAll_is_copyAll (env : Model.Table.Env K) (es : List (K × V)) :
     rw [this.2.2.2]
     simp [d1]
     omega
+
+end Proofs.CopyRep
+
+/-! ### read-your-write on the printed texts: after `appendToBucketOf`, `Load` finds the entry -/
+namespace Proofs.CopyRep
+open Deep.T Model.Words Model.Table Proofs.DeepAppend Proofs.DeepLoad Proofs.TableRefine
+
+variable {K V : Type} [DecidableEq K]
+
+theorem appendSpec_length_le (hb8 : BitVec 8) (k : K) (v : V) (c : List (BucketOf K V)) :
+    (appendSpec hb8 k v c).length ≤ c.length + 1 := by
+  induction c with
+  | nil => simp [appendSpec]
+  | cons b r ih =>
+    cases r with
+    | nil => cases hf : firstFree b.entries <;> simp [appendSpec, hf]
+    | cons r0 rs =>
+      cases hf : firstFree b.entries with
+      | some i => simp [appendSpec, hf]
+      | none =>
+        simp only [appendSpec, hf, List.length_cons] at ih ⊢
+        omega
+
+/-- **append, then load**: run the printed `appendToBucketOf` for `(k, v)` on the chain of `k`'s root bucket (where `k` is
+not yet present), then the printed `MapOf.Load` on the resulting heap: `Load k` returns `(v, true)`, and `Load x` for any other
+key of that bucket returns what the key search found before -/
+theorem append_then_load [Inhabited V] (fuel : Nat) (hf : 8 ≤ fuel) (h : Heap K V) (k : K) (v : V) (c : List (BucketOf K V))
+    (hc : h.chains[(bidxOf h k).toNat]? = some c) (hne : c ≠ []) (hfuel : c.length + 1 ≤ fuel)
+    (hrep : ∀ b ∈ c, RepB (hkOf h) b) (hnd : (chainKeys (flat c)).Nodup) (habs : lookup k (flat c) = none) :
+    ∃ h', callW fuel h Gen.Deep.T_appendToBucketOf [.w8 (hkOf h k), .entry k v, .bucketRef (bidxOf h k).toNat 0] = some (h', []) ∧
+      call fuel h' Gen.Deep.T_MapOf_Load [.key k] = some [.val v, .bool true] ∧
+      ∀ x, bidxOf h x = bidxOf h k → x ≠ k →
+        call fuel h' Gen.Deep.T_MapOf_Load [.key x] =
+          some (match lookup x (flat c) with
+            | some w => [.val w, .bool true]
+            | none => [.zeroV, .bool false]) := by
+  let ci := (bidxOf h k).toNat
+  let c' := appendSpec (hkOf h k) k v c
+  let h' : Heap K V := { h with chains := h.chains.set ci c' }
+  have hci : ci < h.chains.length := by
+    rcases Nat.lt_or_ge ci h.chains.length with hl | hg
+    · exact hl
+    · rw [List.getElem?_eq_none hg] at hc; cases hc
+  have happ := append_eq_spec fuel (by omega) h (hkOf h k) k v ci c hc hne (by omega) (fun b hb => (hrep b hb).1)
+  have hbidx : ∀ x, bidxOf h' x = bidxOf h x := by
+    intro x; simp [bidxOf, hashOf, h']
+  have hhk : hkOf h' = hkOf h := rfl
+  have hc' : ∀ x, bidxOf h x = bidxOf h k → h'.chains[(bidxOf h' x).toNat]? = some c' := by
+    intro x hx
+    rw [hbidx, hx]
+    simp [h', ci, hci]
+  have hne' : c' ≠ [] := appendSpec_ne _ _ _ _ hne
+  have hlen' : c'.length ≤ fuel := Nat.le_trans (appendSpec_length_le _ _ _ _) hfuel
+  have hrep' : ∀ b ∈ c', RepB (hkOf h') b := by
+    rw [hhk]; exact appendSpec_rep (hkOf h) k v c hrep
+  have hflat : flat c' = place 5 k v (flat c) := appendSpec_flat _ _ _ _ hne (fun b hb => (hrep b hb).1)
+  have hlook := (chainMod_place 5 k v (flat c) hnd habs).look
+  refine ⟨h', happ, ?_, ?_⟩
+  · rw [load_eq_lookup fuel hf h' k c' (hc' k rfl) hne' hlen' hrep', hflat, hlook k]
+    simp
+  · intro x hx hxk
+    rw [load_eq_lookup fuel hf h' x c' (hc' x hx) hne' hlen' hrep', hflat, hlook x]
+    simp only [hxk, if_false]
+    cases lookup x (flat c) <;> rfl
 
 end Proofs.CopyRep
